@@ -104,3 +104,12 @@ fire("C15", N, "    if isinstance(x, NoArg):\n        return cast(T, NoArg())", 
 fire("C15", J, "MIN_INTEGER, MAX_INTEGER = (-(2**53) + 1, (2**53) - 1)", "import sys\nMIN_INTEGER, MAX_INTEGER = (-(2**53) + 1, (2**53) - 1) if sys.version_info >= (3, 9) else (-(2**31), 2**31)")
 silent(["C15"], N, "from dataclasses import replace", "from dataclasses import replace\nimport sys", "an unused import is harmless")
 silent(["C15", "C07", "C08"], I, "from typing_extensions import Literal", "import sys\nif sys.version_info >= (3, 8):\n    from typing import Literal\nelse:\n    from typing_extensions import Literal", "import-only version switch")
+# ---- C16
+CLI = "code_data/_cli.py"
+fire("C16", CLI, "    console.print(code_data)\n    if json:", "    console.print(CodeData.from_code(code))\n    if json:")
+fire("C16", CLI, "    if not no_normalize:\n        code_data = normalize(code_data)", "    if no_normalize:\n        code_data = normalize(code_data)")
+fire("C16", CLI, "        args.c,\n        args.m,\n        args.e,", "        args.c,\n        args.e,\n        args.m,")
+fire("C16", CLI, "        json_data = code_data.to_json_data()", "        json_data = CodeData.from_code(code).to_json_data()")
+fire("C16", CLI, "    if len([x for x in [file, cmd, mod, eval_] if x is not None]) != 1:", "    if len([x for x in [file, cmd, mod] if x is not None]) != 1:")
+fire("C16", CLI, "    if len([x for x in [file, cmd, mod, eval_] if x is not None]) != 1:", "    if len(list(filter(None, [file, cmd, mod, eval_]))) != 1:", "the original defect")
+silent(["C16"], CLI, "    if len([x for x in [file, cmd, mod, eval_] if x is not None]) != 1:", "    if sum(x is not None for x in [file, cmd, mod, eval_]) != 1:", "equivalent spelling")
